@@ -176,7 +176,7 @@ def run(rep, tier, seed, tr_errors):
     methods = ["leastsq", "least_squares", "nelder", "lbfgsb", "powell", "cg", "bfgs", "tnc", "slsqp"]
     weights = ["unity", "modulus", "proportional", "boukamp"]
     plan = []
-    n = 14 if tier == "quick" else 150
+    n = 30 if tier == "quick" else 150
     for i in range(n):
         fam = rng.choice(FAMILIES + [ladder(rng.choice([5, 6]))])
         plan.append((fam, rng.choice(methods), rng.choice(weights), rng.choice([0.0, 0.3, 0.5]), rng.random() < 0.25))
